@@ -2162,10 +2162,12 @@ def get_permutation_matrix_from_ascending_order(ids: List[int]) -> np.ndarray:
 
 
 def permute_pauli_symbol(symbol: str, ids: List[int]) -> str:
+    """Return the Pauli symbol in ascending order of ids, where symbol[k] acts on the elemental system ids[k]."""
     assert len(symbol) == len(ids)
     pauli_indices = convert_pauli_symbol_to_pauli_indices(symbol)
+    # matP converts sorted(ids) to ids, so its transpose converts the order of ids to the ascending order.
     matP = get_permutation_matrix_from_ascending_order(ids)
-    pauli_indices_permuted = matP @ np.array(pauli_indices)  # .to_list()
+    pauli_indices_permuted = matP.T @ np.array(pauli_indices)  # .to_list()
     symbol_permuted = convert_pauli_indices_to_pauli_symbol(pauli_indices_permuted)
     return symbol_permuted
 
